@@ -367,7 +367,25 @@ func (w *world) buildTemplate(inc *incM, kind string) *tmpl {
 		how := pick(w, "how", []string{"nocreate", "nocreate", "nocreate", "nocreate", "nocreate", "unchecked", "unchecked", "unchecked_trunc", "guarded", "guarded", "exclusive4", "exclusive4_1"})
 		return w.tOpen(inc, pick(w, "name", fileNames), pick(w, "openOwner", openOwners), pick(w, "access", accesses), how)
 	case "open_then":
-		return w.tOpenThen(inc, pick(w, "name", fileNames), pick(w, "openOwner", openOwners), pick(w, "access", accesses), pick(w, "then", []string{"read", "write", "close"}))
+		name := pick(w, "name", fileNames)
+		via := pick(w, "currentVia", []string{"none", "none", "save_restore", "putfh_other", "putfh_other", "putfh_same", "putrootfh", "lookup_other", "lookup_same"})
+		otherFH, ok := w.pickFH(true)
+		if !ok {
+			via = "none"
+		}
+		then := pick(w, "then", []string{"read", "write", "close"})
+		if via != "none" && via != "save_restore" {
+			// The current state ID is gone: every kind of use must be refused.
+			then = pick(w, "thenRefused", []string{"read", "write", "close", "setattr", "downgrade", "lock"})
+		}
+		var otherName string
+		for _, n := range fileNames {
+			if n != name {
+				otherName = n
+				break
+			}
+		}
+		return w.tOpenThen(inc, name, pick(w, "openOwner", openOwners), pick(w, "access", accesses), then, via, otherFH, otherName)
 	case "open_fh":
 		fh, ok := w.pickFH(true)
 		if !ok {
